@@ -36,6 +36,7 @@ from typing import Dict, Iterator, List, Optional, Set, Tuple
 REF_FILE = Path(__file__).resolve().parent / "refnames.json"
 INLINE_TEMPS = True
 RESTYLE = True
+INLINE_HELPERS = True
 
 _FUNC = (ast.FunctionDef, ast.AsyncFunctionDef)
 
@@ -369,6 +370,151 @@ def _rename_in(fn, mapping: Dict[str, str], include_params: bool = False):
         rec(st, mapping)
 
 
+def _helper_expression(fn) -> Optional[ast.AST]:
+    """The single expression a small function computes: `return e`, or guard returns `if c: return a` ... `return b` (-> a if c else b)."""
+    body = [st for st in fn.body if not (isinstance(st, ast.Expr) and isinstance(st.value, ast.Constant))]
+
+    def as_expr(b):
+        if len(b) == 1 and isinstance(b[0], ast.Return) and b[0].value is not None:
+            return b[0].value
+        if b and isinstance(b[0], ast.If) and len(b[0].body) == 1 and isinstance(b[0].body[0], ast.Return) and b[0].body[0].value is not None:
+            rest = b[0].orelse if b[0].orelse else b[1:]
+            if b[0].orelse and len(b) > 1:
+                return None
+            tail = as_expr(list(rest))
+            if tail is not None:
+                return ast.IfExp(test=b[0].test, body=b[0].body[0].value, orelse=tail)
+        return None
+    e = as_expr(body)
+    if e is None or any(isinstance(n, (ast.Yield, ast.YieldFrom, ast.Await, ast.Lambda, ast.NamedExpr)) for n in ast.walk(e)):
+        return None
+    return e
+
+
+def _inline_new_helper_calls(tree: ast.Module, stem: str, ref: dict) -> int:
+    """Extract-function undone: a call to a function of this module that the reference tree does not have, whose body is one expression of its parameters and
+    module-level names, is replaced by that expression with the arguments substituted.  An argument that is not a plain value expression is substituted only
+    where the parameter is read exactly once (evaluated once, as before)."""
+    import copy
+    funcs = functions(tree)
+    known = {qn for qn, _ in funcs if f"{stem}:{qn}" in ref}
+    helpers = {}
+    for qn, fn in funcs:
+        if qn in known or fn.decorator_list or fn.args.vararg or fn.args.kwarg or fn.args.kwonlyargs or fn.args.posonlyargs:
+            continue
+        parts = qn.split(".")
+        if len(parts) > 2:
+            continue
+        if len(parts) == 2 and not any(isinstance(c, ast.ClassDef) and c.name == parts[0] for c in tree.body):
+            continue  # nested function: left to the rule-level helper inliner
+        # normalise the helper's own body first (all its locals are new)
+        keep = {p.lstrip("*") for p in _params(fn)}
+        _plain_annotated_assignments(fn)
+        _fold_accumulators(fn, keep)
+        _inline_pure_temps(fn, keep)
+        _inline_adjacent_temps(fn, keep)
+        _inline_temp_returns(fn)
+        e = _helper_expression(fn)
+        if e is None:
+            continue
+        params = [a.arg for a in fn.args.args]
+        defaults = dict(zip(params[len(params) - len(fn.args.defaults):], fn.args.defaults))
+        bound_in_e = {t.id for n in ast.walk(e) if isinstance(n, (ast.ListComp, ast.SetComp, ast.DictComp, ast.GeneratorExp))
+                      for g in n.generators for t in ast.walk(g.target) if isinstance(t, ast.Name)}
+        free = {n.id for n in ast.walk(e) if isinstance(n, ast.Name)} - set(params) - bound_in_e
+        if any(isinstance(n, (ast.ListComp, ast.SetComp, ast.DictComp, ast.GeneratorExp)) and
+               ({t.id for g in n.generators for t in ast.walk(g.target) if isinstance(t, ast.Name)} & set(params)) for n in ast.walk(e)):
+            continue
+        helpers[qn] = (fn, e, params, defaults, free, bound_in_e)
+    if not helpers:
+        return 0
+    k = 0
+    for qn, caller in funcs + [("<module>", tree)]:
+        if qn in helpers:
+            continue
+        local_names = set()
+        if qn != "<module>":
+            local_names = {p_.lstrip("*") for p_ in _params(caller)}
+            for m_ in _own_nodes(caller):
+                if isinstance(m_, ast.Name) and isinstance(m_.ctx, (ast.Store, ast.Del)):
+                    local_names.add(m_.id)
+                elif isinstance(m_, _FUNC + (ast.ClassDef,)):
+                    local_names.add(m_.name)
+                elif isinstance(m_, ast.ExceptHandler) and m_.name:
+                    local_names.add(m_.name)
+                elif isinstance(m_, (ast.Import, ast.ImportFrom)):
+                    local_names.update((al.asname or al.name).split(".")[0] for al in m_.names)
+        cls = qn.split(".")[0] if "." in qn else None
+
+        class I(ast.NodeTransformer):
+            def visit_FunctionDef(self, n):
+                if n is caller or qn == "<module>":
+                    if qn == "<module>":
+                        return n  # module level: only top-level statements outside functions
+                    self.generic_visit(n)
+                return n
+
+            visit_AsyncFunctionDef = visit_FunctionDef
+
+            def visit_ClassDef(self, n):
+                return n if qn == "<module>" else self.generic_visit(n) or n
+
+            def visit_Call(self, n):
+                nonlocal k
+                self.generic_visit(n)
+                name, recv = None, None
+                if isinstance(n.func, ast.Name) and n.func.id in helpers and "." not in n.func.id:
+                    name = n.func.id
+                elif isinstance(n.func, ast.Attribute) and isinstance(n.func.value, ast.Name) and n.func.value.id in ("self", "cls") and cls \
+                        and f"{cls}.{n.func.attr}" in helpers:
+                    name, recv = f"{cls}.{n.func.attr}", n.func.value
+                if name is None:
+                    return n
+                fn, e, params, defaults, free, bound_in_e = helpers[name]
+                if name in local_names or (free & local_names):
+                    return n  # the caller shadows a name the expression reads
+                ps = list(params)
+                binding = {}
+                if recv is not None:
+                    if not ps:
+                        return n
+                    binding[ps[0]] = recv
+                    ps = ps[1:]
+                if any(isinstance(a, ast.Starred) for a in n.args) or any(kw.arg is None for kw in n.keywords) or len(n.args) > len(ps):
+                    return n
+                for p_, a in zip(ps, n.args):
+                    binding[p_] = a
+                for kw in n.keywords:
+                    if kw.arg not in ps or kw.arg in binding:
+                        return n
+                    binding[kw.arg] = kw.value
+                for p_ in ps:
+                    if p_ not in binding:
+                        if p_ in defaults:
+                            binding[p_] = defaults[p_]
+                        else:
+                            return n
+                if any(isinstance(m, ast.Name) and m.id in bound_in_e for a in binding.values() for m in ast.walk(a)):
+                    return n  # an argument would be captured by a comprehension variable of the expression
+                uses = {p_: sum(1 for m in ast.walk(e) if isinstance(m, ast.Name) and m.id == p_) for p_ in binding}
+                if any(uses[p_] != 1 and not _pure(a) for p_, a in binding.items()):
+                    return n
+
+                class S(ast.NodeTransformer):
+                    def visit_Name(self, m):
+                        return copy.deepcopy(binding[m.id]) if m.id in binding and isinstance(m.ctx, ast.Load) else m
+                k += 1
+                return ast.copy_location(S().visit(copy.deepcopy(e)), n)
+        if qn == "<module>":
+            for i, st in enumerate(tree.body):
+                if not isinstance(st, _FUNC + (ast.ClassDef,)):
+                    tree.body[i] = I().visit(st)
+        else:
+            for i, st in enumerate(caller.body):
+                caller.body[i] = I().visit(st)
+    return k
+
+
 def _inline_temp_returns(fn) -> int:
     k = 0
     # names read later than a return can only be read by a closure or a finally block: those keep their assignment
@@ -683,6 +829,24 @@ def _inline_pure_temps(fn, keep: Set[str]) -> int:
     assignment: every read of `t` is replaced by `e` and the assignment is dropped."""
     import copy
     k = 0
+    # `a, b = X, Y` with new names on the left and nothing on the right reading them: two plain assignments
+    for owner in list(_own_nodes(fn)) + [fn]:
+        for field in ("body", "orelse", "finalbody"):
+            blk = getattr(owner, field, None)
+            if not (isinstance(blk, list) and blk and isinstance(blk[0], ast.stmt)):
+                continue
+            i = 0
+            while i < len(blk):
+                st = blk[i]
+                if isinstance(st, ast.Assign) and len(st.targets) == 1 and isinstance(st.targets[0], ast.Tuple) and isinstance(st.value, ast.Tuple) \
+                        and len(st.targets[0].elts) == len(st.value.elts) and all(isinstance(t, ast.Name) and t.id not in keep for t in st.targets[0].elts) \
+                        and not any(isinstance(x, ast.Starred) for x in st.value.elts) and all(_pure(v) for v in st.value.elts):
+                    tn = {t.id for t in st.targets[0].elts}
+                    if len(tn) == len(st.targets[0].elts) and not any(isinstance(m, ast.Name) and m.id in tn for v in st.value.elts for m in ast.walk(v)):
+                        blk[i:i + 1] = [ast.copy_location(ast.Assign(targets=[t], value=v), st) for t, v in zip(st.targets[0].elts, st.value.elts)]
+                        i += len(tn)
+                        continue
+                i += 1
     changed = True
     while changed:
         changed = False
@@ -897,7 +1061,7 @@ def _inline_adjacent_temps(fn, keep: Set[str]) -> int:
             a, b = body[i], body[i + 1]
             if (isinstance(a, ast.Assign) and len(a.targets) == 1 and isinstance(a.targets[0], ast.Name)):
                 t = a.targets[0].id
-                if t not in keep and stores.get(t) == 1 and loads.get(t) == 1 and t not in pinned and t not in params and not isinstance(a.value, (ast.Lambda, ast.Yield, ast.YieldFrom, ast.Await)):
+                if t not in keep and stores.get(t) == 1 and loads.get(t) == 1 and t not in pinned and t not in params and not isinstance(a.value, (ast.Lambda, ast.Yield, ast.YieldFrom, ast.Await, ast.IfExp)):
                     if isinstance(b, ast.Assign) and len(b.targets) == 1 and isinstance(b.targets[0], ast.Name) and isinstance(b.value, ast.Constant) \
                             and b.targets[0].id != t and b.targets[0].id not in {x.id for x in ast.walk(a.value) if isinstance(x, ast.Name)} and i + 2 < len(body):
                         # `n = <constant>` in between neither observes nor disturbs the temporary's expression: look past it
@@ -1072,6 +1236,38 @@ def _restyle_candidates(fn):
                             v = ast.copy_location(ast.IfExp(test=st.test, body=st.body[0].value, orelse=blk[i + 1].value), st)
                             blk[i:] = [ast.copy_location(ast.Return(value=v), st)]
                         out.append(d1)
+                # J: `if c: x = A else: x = B`  ->  `x = B` / `if c: x = A`   (B a plain value expression: evaluating it first changes nothing)
+                if isinstance(st, ast.If) and len(st.body) == 1 and len(st.orelse) == 1 and isinstance(st.body[0], ast.Assign) and isinstance(st.orelse[0], ast.Assign) \
+                        and len(st.body[0].targets) == 1 and isinstance(st.body[0].targets[0], ast.Name) and len(st.orelse[0].targets) == 1 \
+                        and isinstance(st.orelse[0].targets[0], ast.Name) and st.body[0].targets[0].id == st.orelse[0].targets[0].id:
+                    xname = st.body[0].targets[0].id
+                    reads_x = any(isinstance(m, ast.Name) and m.id == xname for m in ast.walk(st.test)) or \
+                        any(isinstance(m, ast.Name) and m.id == xname for m in ast.walk(st.body[0].value)) or any(isinstance(m, ast.Name) and m.id == xname for m in ast.walk(st.orelse[0].value))
+                    if not reads_x and _pure(st.orelse[0].value) and not any(isinstance(m, ast.Call) for m in ast.walk(st.orelse[0].value)):
+                        def j(blk=blk, i=i, st=st):
+                            dflt = st.orelse[0]
+                            st.orelse = []
+                            blk[i:i + 1] = [dflt, st]
+                        out.append(j)
+                    if not reads_x and _pure(st.body[0].value) and not any(isinstance(m, ast.Call) for m in ast.walk(st.body[0].value)):
+                        def j2(blk=blk, i=i, st=st):
+                            dflt = st.body[0]
+                            st.test = _negate(st.test)
+                            st.body, st.orelse = st.orelse, []
+                            blk[i:i + 1] = [dflt, st]
+                        out.append(j2)
+                # J': `x = B` / `if c: x = A`  ->  if/else
+                if isinstance(st, ast.Assign) and len(st.targets) == 1 and isinstance(st.targets[0], ast.Name) and i + 1 < len(blk) and isinstance(blk[i + 1], ast.If) \
+                        and not blk[i + 1].orelse and len(blk[i + 1].body) == 1 and isinstance(blk[i + 1].body[0], ast.Assign) and len(blk[i + 1].body[0].targets) == 1 \
+                        and isinstance(blk[i + 1].body[0].targets[0], ast.Name) and blk[i + 1].body[0].targets[0].id == st.targets[0].id and _pure(st.value) \
+                        and not any(isinstance(m, ast.Call) for m in ast.walk(st.value)):
+                    nxt = blk[i + 1]
+                    xname = st.targets[0].id
+                    if not any(isinstance(m, ast.Name) and m.id == xname for m in ast.walk(nxt.test)) and not any(isinstance(m, ast.Name) and m.id == xname for m in ast.walk(nxt.body[0].value)):
+                        def j3(blk=blk, i=i, st=st, nxt=nxt):
+                            nxt.orelse = [st]
+                            del blk[i]
+                        out.append(j3)
                 # C: conditional-expression assignment -> if/else
                 if isinstance(st, ast.Assign) and isinstance(st.value, ast.IfExp) and len(st.targets) == 1:
                     def c(blk=blk, i=i, st=st):
@@ -1174,10 +1370,17 @@ class Normalizer:
         self.folded = 0
         self.pure_temps = 0
         self.restyled = 0
+        self.helpers_inlined = 0
         self.param_renames: Dict[str, Dict[str, str]] = {}  # function simple name -> {current kw: reference kw}
 
     def module(self, stem: str, tree: ast.Module):
         self.unflipped += _unflip_ifs(tree)
+        if INLINE_HELPERS and self.ref:
+            for _ in range(2):
+                n_ = _inline_new_helper_calls(tree, stem, self.ref)
+                self.helpers_inlined += n_
+                if not n_:
+                    break
         funcs = functions(tree)
         for qn, fn in funcs:
             self.annotated += _plain_annotated_assignments(fn)
